@@ -143,7 +143,7 @@ def _kcls(k):
 def _vol(D, Pp, res, mech, what):
     import torch
     try:
-        v = D.volume(Pp)
+        v = D.volume(Pp) if Pp is not None else D.volume()
     except Exception as e:
         res["viol"].append(viol("exception", "%s.volume raised %s in %s (%s): %s" % (type(D).__name__, type(e).__name__, exc_site(e), what,
                                 str(e)[:300]), exc=type(e).__name__, site=exc_site(e), call="volume", **mech))
@@ -180,6 +180,27 @@ def check_volume(D, node_measure, Pp, k, dep, res, mech, what, rtol=1e-5):
         i = int(np.argmax(rel))
         res["viol"].append(viol("volume_wrong", "%s: volume() = %.7g but the measure is %.7g at parameter row %d (relative error %.2g)" %
                                 (what, vv[i], node_measure[i], i, rel[i]), cls=type(D).__name__, **mech))
+
+
+def _evaluated(D, node, m, env, kk, res, mech, info, rtol):
+    """D(**row) is the set of that parameter row: its volume() is the measure of that row (declared flags, user volumes
+    and wrappers survive the partial evaluation); also through a Translate wrapper around the composite"""
+    import torch
+    import torchphysics as tp
+    free = sorted(node.free())
+    for i in sorted(set([0, kk - 1])):
+        vals = {v: torch.tensor(env[v][i:i + 1].astype(np.float32)) for v in free}
+        for wrap in ("direct", "translate"):
+            try:
+                Dw = D if wrap == "direct" else tp.domains.Translate(D, [0.25] * node.dim())
+                De = Dw(**vals)
+            except Exception as e:
+                res["viol"].append(viol("exception", "%s(**row %d) raised %s in %s: %s" % (info["desc"], i, type(e).__name__, exc_site(e),
+                                        str(e)[:200]), exc=type(e).__name__, site=exc_site(e), call="__call__", **mech))
+                continue
+            res["counters"]["evaluated_volume_checks"] = res["counters"].get("evaluated_volume_checks", 0) + 1
+            check_volume(De, m[i:i + 1], None, 0, False, res, dict(mech, target="evaluated_" + wrap),
+                         "%s evaluated at parameter row %d (%s)" % (info["desc"], i, wrap), rtol=rtol)
 
 
 def _ring_area_len(r):
@@ -259,8 +280,11 @@ def run_history(case, D, node, Pp, env, res, mech, info):
     exp = {"union": ma + mb, "cut": ma - mb, "product": ma * mb}[spec["op"]]
     if (exp <= 0).any():
         return
+    import torch
+    form = ("number", "tensor0d", "tensor11")[(case["seed"] // 2) % 3]
+    mech = dict(mech, uservol=form)
     try:
-        Dpart.set_volume(uv)
+        Dpart.set_volume(uv if form == "number" else (torch.tensor(uv) if form == "tensor0d" else torch.tensor([[uv]])))
     except Exception as e:
         res["viol"].append(viol("exception", "set_volume on a part of %s raised %r" % (info["desc"], e), exc=type(e).__name__, site=exc_site(e), **mech))
         return
@@ -270,6 +294,10 @@ def run_history(case, D, node, Pp, env, res, mech, info):
     check_volume(D, exp, Pp, k, True, res, dict(mech, target="after_set_volume_on_part"), "%s after set_volume(%.3g) on operand %s" % (info["desc"], uv, part), rtol=rt)
     T = tp.domains.Translate(D, [0.5] * node.dim())
     check_volume(T, exp, Pp, k, True, res, dict(mech, target="translate_after_set_volume_on_part"), "Translate(%s) after set_volume on operand %s" % (info["desc"], part), rtol=rt)
+    # evaluating the composite must not have changed what the part reports, and the composite repeats itself
+    check_volume(Dpart, np.full(kk, uv), Pp, k, False, res, dict(mech, target="part_after_composite_volume"),
+                 "operand %s of %s (user volume %.3g) after the composite was evaluated" % (part, info["desc"], uv))
+    check_volume(D, exp, Pp, k, True, res, dict(mech, target="after_set_volume_on_part_again"), "%s after set_volume(%.3g) on operand %s, evaluated again" % (info["desc"], uv, part), rtol=rt)
     if k <= 1 and spec["op"] == "product":
         d = 40.0 / float(exp[0])
         try:
@@ -304,6 +332,8 @@ def run_case(case):
             ma_, mb_ = node.a.measure(env, kk), node.b.measure(env, kk)
             rt0 += 8 * 6e-8 * float(((np.abs(ma_) + np.abs(mb_)) / np.abs(m)).max())
         check_volume(D, m, Pp, k, bool(node.free()), res, dict(mech, target="interior"), info["desc"], rtol=rt0)
+    if wk in ("flagged", "moved", "product") and m is not None and k > 0 and node.free():
+        _evaluated(D, node, m, env, kk, res, mech, info, rt0)
     if wk == "sliver":
         # float32 evaluation of the determinant loses eps * |d1||d2| / area relative accuracy; anything beyond that is wrong
         V = node.verts(env, kk)
